@@ -35,7 +35,8 @@ def plan(tier):
     p.live_runs = [(tm.Cfg('trace-n4', [1, 1, 1, 1], [2], max_round=10, max_height=4, nbyz=0, budget=0, own_first=False,
                            useful_only=False, properties=[]), 3, 1 if quick else 6),
                    (byzcfg, 3, 1 if quick else 8)]
-    p.scenarios = ['lock_unlock', 'relock_and_pol_proposal', 'locked_without_proposal', 'stale_polka_must_not_unlock']
+    p.scenarios = ['lock_unlock', 'relock_and_pol_proposal', 'locked_without_proposal', 'stale_polka_must_not_unlock',
+                   'lock_survives_restart']
     return p
 
 
